@@ -27,10 +27,15 @@ type c11State struct {
 //   T=0 text (control-free, whole UTF-8)   T=1 SGR with decimal parameters Dig (well-formed, in the documented domain)
 //   T=2 other sequence (CSI not SGR, OSC, ESC x, SO/SI), raw bytes   T=3 OSC-8 open/close   T=4 "c BS" pair
 //   T=5 SGR outside the documented domain (colon forms, empty / truncated parameters): correspondence only
+//   T=6 SGR with omitted parameters and/or a last parameter written with sub-parameters (':'): plain parameters Dig
+//       ("" = omitted) then, when Sub is not empty, one parameter whose sub-parameters are Sub ("" = omitted), e.g.
+//       Dig=["1"], Sub=["38","2","","10","20","30"] is ESC[1;38:2::10:20:30m.  The spec (sgr_xwf) says whether the
+//       sequence is inside the claimed domain; inside it the colouring equality is checked, outside it model = code only
 type c11Item struct {
 	T   int      `json:"t"`
 	Hex string   `json:"hex,omitempty"`
 	Dig []string `json:"dig,omitempty"`
+	Sub []string `json:"sub,omitempty"`
 }
 
 type c11Case struct {
@@ -46,6 +51,16 @@ func unhex(s string) string { b, _ := hex.DecodeString(s); return string(b) }
 func tohex(s string) string { return hex.EncodeToString([]byte(s)) }
 
 func (it c11Item) render() string {
+	if it.T == 6 {
+		s := "\x1b[" + strings.Join(it.Dig, ";")
+		if len(it.Sub) > 0 {
+			if len(it.Dig) > 0 {
+				s += ";"
+			}
+			s += strings.Join(it.Sub, ":")
+		}
+		return s + "m"
+	}
 	if it.T == 1 || it.T == 5 {
 		if it.Hex != "" {
 			return unhex(it.Hex)
@@ -121,6 +136,39 @@ func (r c11Extract) val() Val {
 		offs = L(L(vs...))
 	}
 	return L(Bytes(r.Trimmed), offs, c11StateOptVal(r.State))
+}
+
+// omitted or given number, and the xsgr record of AnsiSpec.v (mirror of as_optz / as_xsgr)
+func c11OptNum(d string) Val {
+	if d == "" {
+		return L()
+	}
+	n, _ := strconv.Atoi(d)
+	return L(I(n))
+}
+func (it c11Item) xsgrVal() Val {
+	ps := []Val{}
+	for _, d := range it.Dig {
+		ps = append(ps, c11OptNum(d))
+	}
+	last := L()
+	if len(it.Sub) > 0 {
+		subs := []Val{}
+		for _, d := range it.Sub {
+			subs = append(subs, c11OptNum(d))
+		}
+		last = L(L(subs...))
+	}
+	return L(L(ps...), last)
+}
+
+// reference reading of a T=6 sequence from the state st, and whether it lies in the claimed domain
+func c11XApply(c *Ctx, it c11Item, st Val) (Val, bool) {
+	w := c.Model.Call(1110, L(it.xsgrVal(), st))
+	if len(w.L) != 2 {
+		return L(), false
+	}
+	return w.L[0], w.L[1].I == 1
 }
 
 func hasCtl(s string) bool { return strings.ContainsAny(s, "\x1b\x0e\x0f\x08") }
@@ -265,6 +313,13 @@ func c11Check(c *Ctx, cs c11Case) {
 				items = append(items, L(I(1), Ints(ps)))
 			case 5:
 				inDomain = false
+			case 6:
+				if _, wf := c11XApply(c, it, L(I(-1), I(-1), I(0))); wf {
+					items = append(items, L(I(3), it.xsgrVal()))
+					rep.Count("inter:sgr-with-omitted-or-sub-parameters(in-domain)")
+				} else {
+					inDomain = false
+				}
 			default:
 				items = append(items, L(I(2)))
 			}
@@ -329,6 +384,19 @@ func c11Check(c *Ctx, cs c11Case) {
 					c11Bad(c, "spec", "sgr_keeps_link", cs, c11StateVal(&got).String(), c11StateVal(st).String())
 				}
 				rep.Count("sgr=in-domain")
+			}
+		} else if it.T == 6 {
+			if want, wf := c11XApply(c, it, c11SgrVal(st)); wf {
+				rep.SpecChecks++
+				if !c11SgrVal(&got).Equal(want) {
+					c11Bad(c, "spec", "sgr_sub_eq", cs, c11SgrVal(&got).String(), want.String())
+				}
+				if st != nil && (got.Lbg != st.Lbg || got.HasURL != st.HasURL || got.URI != st.URI) {
+					c11Bad(c, "spec", "sgr_keeps_link", cs, c11StateVal(&got).String(), c11StateVal(st).String())
+				}
+				rep.Count("sgr=in-domain(omitted/sub-parameters)")
+			} else {
+				rep.Count("sgr=out-of-domain(corr only)")
 			}
 		} else {
 			rep.Count("sgr=out-of-domain(corr only)")
@@ -422,6 +490,60 @@ func c11GenSgr(r *RNG) c11Item {
 	return it
 }
 
+// SGR with omitted parameters / an extended colour written with sub-parameters.  Mostly inside the claimed domain
+// (every parameter omitted; plain parameters then 38:5:n, 38:2:r:g:b or 38:2::r:g:b, 48 likewise); one in six is a
+// near miss (some parameters omitted, a colour-space identifier, a missing or an extra part, another head) where only
+// model = code is compared
+func c11GenXSgr(r *RNG) c11Item {
+	it := c11Item{T: 6}
+	if r.Chance(1, 6) {
+		n := r.Range(1, 4)
+		for i := 0; i < n; i++ {
+			it.Dig = append(it.Dig, "")
+		}
+		if r.Chance(1, 4) { // near miss: one of them given
+			it.Dig[r.Intn(n)] = strconv.Itoa(Pick(r, c11Simple))
+		}
+		return it
+	}
+	if r.Chance(2, 3) {
+		it.Dig = c11GenSgr(r).Dig
+	}
+	head := Pick(r, []string{"38", "48"})
+	if r.Chance(1, 16) {
+		head = "0" + head
+	}
+	switch r.Intn(5) {
+	case 0, 1:
+		it.Sub = []string{head, "2", "", c11Num(r, 255), c11Num(r, 255), c11Num(r, 255)}
+	case 2, 3:
+		it.Sub = []string{head, "2", c11Num(r, 255), c11Num(r, 255), c11Num(r, 255)}
+	default:
+		it.Sub = []string{head, "5", c11Num(r, 255)}
+	}
+	if r.Chance(1, 6) { // near misses
+		switch r.Intn(6) {
+		case 0:
+			it.Sub[r.Intn(len(it.Sub))] = ""
+		case 1:
+			it.Sub = it.Sub[:len(it.Sub)-1]
+		case 2:
+			it.Sub = append(it.Sub, c11Num(r, 255))
+		case 3:
+			it.Sub[0] = Pick(r, []string{"4", "58", "1", "39"})
+		case 4:
+			it.Sub[len(it.Sub)-1] = Pick(r, []string{"256", "300", "65536"})
+		default:
+			if len(it.Dig) > 0 {
+				it.Dig[r.Intn(len(it.Dig))] = ""
+			} else {
+				it.Dig = []string{""}
+			}
+		}
+	}
+	return it
+}
+
 // SGR-looking sequences outside the domain
 func c11GenOddSgr(r *RNG) c11Item {
 	alts := []string{"\x1b[;1m", "\x1b[1;m", "\x1b[38:5:196m", "\x1b[38:5:196;1m", "\x1b[38;5m", "\x1b[38;2;1;2m", "\x1b[38;7;1m",
@@ -482,7 +604,10 @@ func c11GenState(r *RNG) *c11State {
 	return st
 }
 
-func c11GenInter(r *RNG, allowOdd bool) c11Case {
+func c11GenInter(r *RNG, allowOdd bool) c11Case { return c11GenInterX(r, allowOdd, false) }
+
+// xs: one SGR in three has omitted parameters / sub-parameters (c11GenXSgr)
+func c11GenInterX(r *RNG, allowOdd, xs bool) c11Case {
 	cs := c11Case{Kind: "inter", State: c11GenState(r)}
 	n := r.Range(1, 9)
 	closeForm := false // previous item was the bare OSC-8 close form ESC ]8;;ESC (a following '\' would belong to it)
@@ -502,7 +627,11 @@ func c11GenInter(r *RNG, allowOdd bool) c11Case {
 		case k < 4:
 			cs.Items = append(cs.Items, c11Item{T: 0, Hex: tohex(c11GenText(r))})
 		case k < 8:
-			cs.Items = append(cs.Items, c11GenSgr(r))
+			if xs && r.Chance(1, 3) {
+				cs.Items = append(cs.Items, c11GenXSgr(r))
+			} else {
+				cs.Items = append(cs.Items, c11GenSgr(r))
+			}
 		case k == 8:
 			cs.Items = append(cs.Items, c11GenOther(r))
 		case k == 9:
@@ -593,7 +722,7 @@ func c11GenProc(r *RNG, nlines int) c11Case {
 }
 
 func runC11(c *Ctx) {
-	c.Rep.Rule = "byte strings: (i) arbitrary bytes over a control-heavy alphabet, damaged and truncated streams; (ii) grammar-generated interleavings of text, well-formed SGR (256-colour, 24-bit, resets), OSC-8 with BEL/ST, other CSI/OSC/ESC-x/SO/SI, c-BS pairs, with and without a carried state; (iii) single SGR sequences in and outside the documented domain; (iv) UTF-8 helper model; (v) fzf --ansi -f '' processes. non-trivial = something was stripped / more than one item; distinct by JSON of the case"
+	c.Rep.Rule = "byte strings: (i) arbitrary bytes over a control-heavy alphabet, damaged and truncated streams; (ii) grammar-generated interleavings of text, well-formed SGR (256-colour, 24-bit in the ';' form and in the ':' sub-parameter forms 38:5:n / 38:2:r:g:b / 38:2::r:g:b after plain parameters, resets incl. all-omitted parameters), OSC-8 with BEL/ST, other CSI/OSC/ESC-x/SO/SI, c-BS pairs, with and without a carried state; (iii) single SGR sequences in and outside the documented domain; (iv) UTF-8 helper model; (v) fzf --ansi -f '' processes. non-trivial = something was stripped / more than one item; distinct by JSON of the case"
 	if c.Replay != "" {
 		var cs c11Case
 		b, err := os.ReadFile(c.Replay)
@@ -633,6 +762,12 @@ func runC11(c *Ctx) {
 	for i := 0; i < np; i++ {
 		c11Check(c, c11GenProc(c.Rng, 200))
 	}
+	// (added last so that the streams above keep their per-seed cases)
+	// omitted parameters and the sub-parameter (':') forms of the extended colours: single sequences, then streams
+	parallel(c, c.N(2000, 50000), func(i int, r *RNG) {
+		c11Check(c, c11Case{Kind: "sgr", Items: []c11Item{c11GenXSgr(r)}, State: c11GenState(r)})
+	})
+	parallel(c, c.N(3000, 60000), func(i int, r *RNG) { c11Check(c, c11GenInterX(r, r.Chance(1, 8), true)) })
 }
 
 func init() { runners["C11"] = runC11 }
